@@ -7,6 +7,7 @@ GROUP = "bits"
 LEAN_PROPS = "Dashu.Props.C05"
 LEAN_AUDIT = "Dashu.Audit.C05"
 JOBS = 12
+READY = True
 
 W = 64
 N_UROUTES = 34
@@ -199,13 +200,46 @@ REFINED = [
     "cmp_same_len, cmp_in_place, Ord for TypedReprRef (Small < Large shortcut), Ord for IBig",
     "PartialEq / Hash for Repr via as_sign_slice (the hash feed: sign, length prefix, words)",
     "canonical form is unique: Canon a, Canon b, equal values => a = b (hence == / hash / cmp Equal agree)",
-    "producers of canonical form proved in C09/C01 modules: from_buffer, from_dword paths, & | ^ and_not, add_one/sub_one, "
-    "shl, shr, ones, clear_high_bits, split_bits, IBig sign tables",
+    "producers of canonical form: from_buffer, ofNat, ones, & | ^ and_not, add_one/sub_one, shl, shr, clear_high_bits, "
+    "split_bits, IBig sign tables, Not, IBig shl",
+    "float: repr_cmp_same_base (all 6 cases, any digit estimator that is an upper bound), Repr::normalize, PartialEq for FBig",
+    "rational: repr_cmp, repr_eq (bit-length filters + cross multiplication), structural RBig ==",
 ]
-FRONTIER = []
-EXPLANATION = "(see LEVEL_TEXT)"
-ASSUMPTIONS = ["slice/derive(Hash) of core feed (isize discriminant, usize length prefix, word bytes) as observed on this host",
-               "f32 digit estimate `digits_ub` is an upper bound of the true digit count (checked per case by running the real code)"]
-LEVEL_TEXT = "(pending)"
-LEVEL_NOTE = "(pending)"
+FRONTIER = [
+    "producers outside the bit/shift layer (ring arithmetic, parsing, byte decoding, clone_from, conversions) are covered by the "
+    "multi-route correspondence through the repr_info hook, their Canon theorems live in the owning properties (C01/C02/C07/C17)",
+    "float producers: only `normalize` is refined here; that every FBig operation keeps digits <= precision is C03/C08 "
+    "(one producer violates it: known finding)",
+    "AbsOrd/AbsEq and cross-type comparisons are C14",
+]
+EXPLANATION = ("Theorems: integers — cmp of canonical values = order of values; a value has exactly one canonical representation, so "
+               "== (slice compare), the recorded hash feed and cmp==Equal coincide with value equality; 20 producers keep the canonical "
+               "form; the 2-word heap value of the old ones(128) is the proved counterexample without Canon. Floats — repr_cmp_same_base "
+               "= order of signif*B^exp with infinities at the ends under `digits <= precision`, for every upper-bound digit estimator; "
+               "proved counterexample when the invariant is broken (with_base result); normalize canonical; == <=> cmp Equal. Rationals — "
+               "repr_cmp / repr_eq = cross-multiplication order/equality for non-reduced fractions; RBig structural == on reduced ones.")
+ASSUMPTIONS = ["derive(Hash)/slice hashing of core feed (isize discriminant, usize length prefix, word bytes) as observed on this host",
+               "the f32 estimate `digits_ub` of the real code is an upper bound of the digit count (the model takes the estimator as a "
+               "parameter with exactly this hypothesis; the driver instantiates it with the exact count)",
+               "usize/isize arithmetic on exponents and precisions does not overflow (Int in the model)"]
+
+THEOREMS = ["Dashu.Props.C05." + n for n in [
+    "ubig_cmp", "ibig_cmp", "canonical_form_unique", "eq_iff_value_eq", "cmp_equal_iff_eq", "hash_follows_value", "cmp_swap",
+    "cmp_wrong_without_canon", "producers_canonical", "signed_producers_canonical", "float_cmp",
+    "float_cmp_needs_precision_bound", "float_normalize", "float_eq_iff_cmp_equal", "ratio_cmp", "relaxed_eq", "rbig_eq",
+    "ratio_cmp_equal_iff_eq"]]
+
+LEVEL_TEXT = ("Machine-checked Lean 4 theorems that (integers, every word size and length) comparison of canonical values is the order "
+              "of the values and the canonical representation of a value is unique — so ==, the sequence fed to a Hasher and "
+              "cmp==Equal all coincide with value equality — with the bit/shift-layer producers proved to return canonical form and a "
+              "proved counterexample for the non-canonical value the old ones(128) built; (floats) repr_cmp_same_base equals the order of "
+              "the exact values for all precisions/rounding modes given the FBig invariant digits <= precision, with a proved "
+              "counterexample outside it, normalize is canonical and == <=> cmp Equal; (rationals) repr_cmp/repr_eq equal cross-"
+              "multiplication order/equality on non-reduced fractions and RBig's structural == is value equality on reduced ones. The "
+              "model is tied to /repo on every run by differential execution; integer values are additionally built through 34 (UBig) / "
+              "22 (IBig) independent routes whose results must be canonical (repr_info hook), pairwise ==, cmp Equal and hash-identical.")
+LEVEL_NOTE = ("Trusted: Lean kernel; axioms propext/Classical.choice/Quot.sound; correspondence harness + generators (sampling) for the "
+              "tie model<->code and for the claim that *every* producer yields canonical form (proved here only for the producers listed "
+              "in refined_kernels); the digit-estimate hypothesis. One known finding: floats leaving with_base/convert_base may carry more "
+              "digits than their precision and are then mis-ordered (patch proposed).")
 TECHNIQUE = "Lean 4 theorems (uniqueness of the canonical form; comparison = order of values) + differential correspondence incl. multi-route histories through the repr_info hook"
